@@ -112,8 +112,8 @@ def run(ctx, col: Collector):
                 v = last.node.value
                 if not (isinstance(v, ast.Call) and isinstance(v.func, ast.Attribute) and v.func.attr == 'render'
                         and len(v.args) == 1 and isinstance(v.args[0], ast.Name) and v.args[0].id == 'self'):
-                    col.bad('C16-dispatch', f'{cname}.{lang}:return:{norm(v)}',
-                            f'{cname}.{lang} does not return <renderer>.render(self)', node=last.node, file=prop.file)
+                    col.unk('C16-dispatch', f'{cname}.{lang}:return:{norm(v)[:40]}',
+                            f'{cname}.{lang} returns `{norm(v)[:60]}`, not <renderer>.render(self); cannot judge the dispatch', node=last.node, file=prop.file)
                     continue
                 r = v.func.value
                 rexpr = env.get(r.id, r) if isinstance(r, ast.Name) else r
@@ -147,10 +147,11 @@ def run(ctx, col: Collector):
                 else:
                     col.unk('C16-dispatch', f'{cname}.{lang}:path', f'path without a decided database test: {lits}',
                             node=last.node, file=prop.file)
-            col.check(n_present >= 1 and n_absent >= 1, 'C16-dispatch', f'{cname}.{lang}:both-branches',
-                      'both the attached and the detached branch exist',
-                      f'{cname}.{lang} lacks the attached ({n_present}) or the detached ({n_absent}) branch',
-                      node=prop.node, file=prop.file)
+            if n_present >= 1 and n_absent >= 1:
+                col.ok('C16-dispatch', f'{cname}.{lang}:both-branches', 'both the attached and the detached branch exist', node=prop.node, file=prop.file)
+            else:
+                col.unk('C16-dispatch', f'{cname}.{lang}:both-branches', f'{cname}.{lang}: attached ({n_present}) / detached ({n_absent}) branches not both recognised',
+                        node=prop.node, file=prop.file)
         # Column.database goes through its table
         colc = idx.cls('pydbml._classes.column', 'Column')
         p = idx.lookup_prop(colc.id, 'database')
@@ -176,7 +177,9 @@ def run(ctx, col: Collector):
             raise AnchorMissing('BaseRenderer.render')
         col.check(render.kind == 'classmethod', 'C16-registry', 'BaseRenderer.render:classmethod',
                   'render is a classmethod', 'BaseRenderer.render is not a classmethod', node=render.node, file=render.file)
-        rets = [n for n in walk_no_nested(render.node) if isinstance(n, ast.Return)]
+        from .common import inline_single_assignment_locals
+        rnode = inline_single_assignment_locals(render.node)
+        rets = [n for n in walk_no_nested(rnode) if isinstance(n, ast.Return)]
         found = False
         for r in rets:
             v = r.value
@@ -223,9 +226,14 @@ def run(ctx, col: Collector):
                                   f'fallback {target.qualname} returns the empty string',
                                   f'fallback {target.qualname} does not always return the empty string', node=target.node,
                                   file=target.file)
-        col.check(found, 'C16-registry', 'BaseRenderer.render:shape', 'render = registry.get(type(model), fallback)(model)',
-                  'BaseRenderer.render no longer has the shape registry.get(type(model), fallback)(model)',
-                  node=render.node, file=render.file)
+        if found:
+            col.ok('C16-registry', 'BaseRenderer.render:shape', 'render = registry.get(type(model), fallback)(model)', node=render.node, file=render.file)
+        elif any(isinstance(x, ast.Attribute) and x.attr == 'model_renderers' for x in ast.walk(render.node)):
+            col.unk('C16-registry', 'BaseRenderer.render:shape', 'BaseRenderer.render uses the registry in a form other than registry.get(type(model), fallback)(model)',
+                    node=render.node, file=render.file)
+        else:
+            col.bad('C16-registry', 'BaseRenderer.render:shape', 'BaseRenderer.render does not consult cls.model_renderers at all: registered handlers are never used',
+                    node=render.node, file=render.file)
         # concrete renderers own a fresh registry
         concrete = idx.subclasses(base.id)
         col.floor('C16-registry', 'concrete renderer classes', len(concrete), 2)
